@@ -114,22 +114,36 @@ class Part(ReadBase):
             size = os.path.getsize(path)
             cls = rng.choice(['K', 'K', 'K', 'N', 'S'])
             refsrc, variants = CLASSES[cls]
-            ops = ['load ' + path, f'run blk=w src={refsrc} cons=A trunc=- fault=-']
+            cons = rng.choice(['A', 'A', 'A', 'S', 'N', 'A,S', 'S,B'])
+            ops = ['load ' + path, f'run blk=w src={refsrc} cons={cons} trunc=- fault=-']
             for _ in range(3 if tier == 'quick' else 8):
                 v = rng.choice(variants).format(bs=rng.choice(BS if size < 30000 else [7, 512, 10240]),
                                                 cut=rng.randrange(0, size + 1))
                 blk = blk_choice(rng, size) if v.startswith('cb') else 'w'
-                ops.append(f'run blk={blk} src={v} cons=A trunc=- fault=-')
+                ops.append(f'run blk={blk} src={v} cons={cons} trunc=- fault=-')
             yield Case(f'part:{name}:{cls}', ops, {'cls': cls})
         for label, mk, size in made_archives(rng, 40 if tier == 'quick' else 300):
             cls = rng.choice(['K', 'K', 'N', 'S'])
             refsrc, variants = CLASSES[cls]
-            ops = [mk, f'run blk=w src={refsrc} cons=A trunc=- fault=-']
+            cons = rng.choice(['A', 'A', 'S', 'S', 'N', 'A,S', 'S,B'])
+            ops = [mk, f'run blk=w src={refsrc} cons={cons} trunc=- fault=-']
             for _ in range(3 if tier == 'quick' else 8):
-                v = rng.choice(variants).format(bs=rng.choice([7, 512, 513, 10240]), cut=rng.randrange(0, 4000))
+                v = rng.choice(variants).format(bs=rng.choice([7, 512, 513, 10240]),
+                                                cut=rng.choice([rng.randrange(0, 4000), rng.randrange(0, 150000)]))
                 blk = rng.choice(['7', '511', '512', '513', '10240', 'r%d' % rng.randrange(1, 999), 'c%d' % rng.randrange(0, 3000)]) if v.startswith('cb') else 'w'
-                ops.append(f'run blk={blk} src={v} cons=A trunc=- fault=-')
+                ops.append(f'run blk={blk} src={v} cons={cons} trunc=- fault=-')
             yield Case(f'part:made:{label}:{cls}', ops, {'cls': cls})
+        # gzip members with optional header fields, block borders inside the header
+        d = os.path.join(core.OUT, 'scratch', 'mut'); os.makedirs(d, exist_ok=True)
+        tars = [p for n_, p in ref_pool(rng, 10 ** 6, 30000) if n_.endswith('.tar')]
+        for i in range(12 if tier == 'quick' else 150):
+            gz, hl = gzip_with_fields(rng, open(rng.choice(tars), 'rb').read())
+            mp = os.path.join(d, f'pg{os.getpid()}_{i}.gz'); open(mp, 'wb').write(gz)
+            ops = ['load ' + mp, 'run blk=w src=cb cons=A trunc=- fault=-']
+            for c in sorted({rng.randrange(1, hl + 2) for _ in range(5)} | {hl - 1}):
+                ops.append(f'run blk=c{c} src=cb cons=A trunc=- fault=-')
+            ops.append('run blk=1 src=cb cons=A trunc=- fault=-')
+            yield Case(f'part:gzfields:{i}', ops, {'cls': 'N'})
 
 
 CONS = ['A', 'a', 'B', 'P10', 'P1000', 'S', 'N', 'R1', 'R512', 'R4096']
@@ -140,7 +154,7 @@ class Cons(ReadBase):
     name = 'cons'
 
     def gen(self, rng, tier):
-        n = 70 if tier == 'quick' else 400
+        n = 130 if tier == 'quick' else 400
         for name, path in ref_pool(rng, n):
             size = os.path.getsize(path)
             src = rng.choice(['cbk', 'cbk', 'cb', 'cbs'])
@@ -211,16 +225,54 @@ class Trunc(ReadBase):
                 yield Case(f'trunc:raw:{filt}', ops)
 
 
+def tar_fix_checksums(b):
+    """Recompute the header checksum of every block that looks like a tar header."""
+    for off in range(0, len(b) - 511, 512):
+        blk = b[off:off + 512]
+        if blk[257:262] in (b'ustar', b'ustar') or (blk[156:157] in b'0123456789LKxgSDMNV\0' and any(blk[:100]) and blk[148:156].strip(b' \0').isdigit()):
+            s = sum(blk[:148]) + 8 * 32 + sum(blk[156:512])
+            b[off + 148:off + 156] = b'%06o\0 ' % s
+
+
+TAR_FIELDS = [(100, 8), (108, 8), (116, 8), (124, 12), (136, 12), (329, 8), (337, 8),      # mode uid gid size mtime devmajor devminor
+              (386, 12), (398, 12), (410, 12), (422, 12), (483, 12)]                      # GNU old sparse map, realsize
+
+
+def tar_extreme(rng, b):
+    """Put a border value into a numeric field of a tar header and keep the checksum valid."""
+    heads = [off for off in range(0, len(b) - 511, 512) if b[off + 257:off + 262] == b'ustar']
+    if not heads:
+        return False
+    off = rng.choice(heads); f, w = rng.choice(TAR_FIELDS)
+    r = rng.random()
+    if r < 0.5:      # base-256
+        v = rng.choice([2 ** 62, 2 ** 63 - 1, 2 ** 31, 2 ** 32, 2 ** 33, 2 ** 40, -1, -2 ** 62])
+        enc = (v & ((1 << (8 * w)) - 1)).to_bytes(w, 'big')
+        enc = bytes([enc[0] | 0x80]) + enc[1:] if v >= 0 else bytes([0xff]) + enc[1:]
+        b[off + f:off + f + w] = enc
+    elif r < 0.8:    # octal at the field border
+        b[off + f:off + f + w] = b'7' * w
+    else:
+        b[off + f:off + f + w] = rng.choice([b' ' * w, b'-' + b'7' * (w - 1), b'0' * (w - 1) + b'8'])
+    if rng.random() < 0.3:
+        b[off + 156] = rng.choice(b'S01257LKxgDMNV')   # type flag incl. GNU sparse
+    return True
+
+
 def mutate(rng, data):
     b = bytearray(data)
     if not b:
         return bytes(b)
+    if rng.random() < 0.25 and tar_extreme(rng, b):
+        tar_fix_checksums(b)
+        return bytes(b)
+    head = rng.random() < 0.45           # concentrate on the first header
     for _ in range(rng.choice([1, 1, 2, 4, 16])):
-        r = rng.random(); i = rng.randrange(len(b))
+        r = rng.random(); i = rng.randrange(min(len(b), 160)) if head else rng.randrange(len(b))
         if r < 0.35:
             b[i] ^= 1 << rng.randrange(8)
         elif r < 0.55:
-            b[i] = rng.choice([0, 0xff, 0x7f, 0x80, 0x20, 0x30, 0x37])
+            b[i] = rng.choice([0, 0xff, 0x7f, 0x80, 0x20, 0x30, 0x37, 200])
         elif r < 0.7:
             j = min(len(b), i + rng.choice([1, 2, 4, 8])); b[i:j] = bytes([0xff]) * (j - i)
         elif r < 0.8:
@@ -231,7 +283,30 @@ def mutate(rng, data):
             b = b[:i]
         if not b:
             break
+    if head and b and rng.random() < 0.4:
+        b = b[:rng.randrange(1, min(len(b), 200) + 1)]      # cut right behind the (damaged) fixed header
+    if rng.random() < 0.6:
+        tar_fix_checksums(b)
     return bytes(b)
+
+
+def gzip_with_fields(rng, payload):
+    """A gzip member with any combination of the optional header fields (FEXTRA, FNAME, FCOMMENT, FHCRC)."""
+    import zlib
+    flg = rng.choice([0x10, 0x08, 0x18, 0x04, 0x1c, 0x1e, 0x12, 0x0a])
+    hdr = bytearray(b'\x1f\x8b\x08' + bytes([flg]) + b'\0\0\0\0\0\x03')
+    if flg & 4:
+        ex = bytes(rng.randrange(256) for _ in range(rng.choice([0, 1, 5, 40])))
+        hdr += len(ex).to_bytes(2, 'little') + ex
+    if flg & 8:
+        hdr += b'n' * rng.choice([1, 3, 20]) + b'\0'
+    if flg & 16:
+        hdr += b'c' * rng.choice([1, 2, 7, 30, 300]) + b'\0'
+    if flg & 2:
+        hdr += (zlib.crc32(bytes(hdr)) & 0xffff).to_bytes(2, 'little')
+    c = zlib.compressobj(6, zlib.DEFLATED, -15)
+    body = c.compress(payload) + c.flush()
+    return bytes(hdr) + body + zlib.crc32(payload).to_bytes(4, 'little') + (len(payload) & 0xffffffff).to_bytes(4, 'little'), len(hdr)
 
 
 class Rd(ReadBase):
@@ -253,6 +328,16 @@ class Rd(ReadBase):
             blk = rng.choice(['w', '1', '7', '512', 'r3']) if len(data) < 20000 else rng.choice(['w', '512', 'r3'])
             cons = rng.choice(['A', 'a', 'B', 'A,S,B', 'N', 'P10,a'])
             yield Case(f'rd:{name}:{i}', ['load ' + mp, f'run blk={blk} src={src} cons={cons} trunc=- fault=-'], {'file': mp})
+        tars = [p for n_, p in pool if n_.endswith('.tar') and os.path.getsize(p) < 30000]
+        for i in range(25 if tier == 'quick' else 300):
+            gz, hl = gzip_with_fields(rng, open(rng.choice(tars), 'rb').read())
+            mp = os.path.join(d, f'g{os.getpid()}_{i}.gz')
+            open(mp, 'wb').write(gz)
+            ops = ['load ' + mp]
+            for c in sorted({rng.randrange(1, hl + 2) for _ in range(6)} | {hl - 1, hl}):
+                ops.append(f'run blk=c{c} src={rng.choice(["cb", "cbk"])} cons=A trunc=- fault=-')
+            ops.append('run blk=1 src=cb cons=A trunc=- fault=-')
+            yield Case(f'rd:gzfields:{i}', ops, {'file': mp})
 
     def oracle(self, case, impl):
         for o in impl:
